@@ -125,6 +125,10 @@ fn sampled(rng: &mut Rng) -> Scenario {
         if sc.method != Meth::RK4 && rng.bool(0.2) {
             sc.max_step = Some(sc.span() * rng.logu(0.02, 1.5));
         }
+        if sc.method != Meth::RK4 && rng.bool(0.2) {
+            // first_step filters the first outputs (no t_eval) - the stop must not lose them
+            sc.first_step = Some(sc.dir() * sc.span() * rng.logu(1e-3, 0.6));
+        }
     });
     let n = sc.prob.dim();
     let nsteps = p.grid.len() - 1;
